@@ -469,22 +469,25 @@ def h_logsumexp(m, func, args, kwargs, out):
     return _uf(lambda v: v.log())(s)
 
 
+def _softmax_along(a, d, post=None):
+    a2 = np.moveaxis(a, d, -1)
+    out = np.empty(a2.shape, dtype=object)
+    for idx in np.ndindex(*a2.shape[:-1]):
+        lane = V.softmax_lane(list(a2[idx]))
+        out[idx] = [post(v) for v in lane] if post else lane
+    return np.moveaxis(out, -1, d)
+
+
 @handler("aten._softmax.default")
 def h_softmax(m, func, args, kwargs, out):
     a = m.arr(args[0])
-    d = args[1] % a.ndim
-    e = _uf(lambda v: v.exp())(a)
-    s = _reduce(e, (d,), True, lambda x, y: x + y)
-    return np.asarray(np.frompyfunc(lambda x, y: x / y, 2, 1)(e, s), dtype=object)
+    return _softmax_along(a, args[1] % a.ndim)
 
 
 @handler("aten._log_softmax.default")
 def h_log_softmax(m, func, args, kwargs, out):
     a = m.arr(args[0])
-    d = args[1] % a.ndim
-    e = _uf(lambda v: v.exp())(a)
-    s = _reduce(e, (d,), True, lambda x, y: x + y)
-    return np.asarray(np.frompyfunc(lambda x, y: (x / y).log(), 2, 1)(e, s), dtype=object)
+    return _softmax_along(a, args[1] % a.ndim, post=lambda v: v.log())
 
 
 @handler("aten.cumsum.default")
